@@ -302,6 +302,36 @@ def find_kernel_cex(ck, pkg, kind, r, m, outs):
                 return
             ck.inconclusive.append('kernel %s.%s: DAG evaluation disagrees with reference but replay passes (translator problem)' % (pkg, kind))
             return
+    # stage 2: differential search in QF_BV against the reference copy of the kernel (harness/<pkg>_refkernels.go, the pinned
+    # Fiat code, itself proved against the contract): the solver is asked for inputs on which the two differ
+    DK = {'mul': 0, 'mulself': 0, 'square': 1, 'add': 2, 'addself': 2, 'sub': 3, 'subself': 3, 'opp': 4, 'from': 5, 'to': 6}
+    try:
+        rd = core.symx([pkg + '_intrinsics.go', pkg + '_kernels.go', pkg + '_refkernels.go'], [{'id': 'diff', 'harness': 'vh_diff', 'args': [DK[kind]]}], pkg=pkg)[0]
+        if not rd.error and len(rd.paths) == 1:
+            od = rd.paths[0]['obs']
+            low = BVLower(rd)
+            low.emit(od['out']['f'] + od['ref']['f'])
+            names = [low.name(x) for x in low.done if rd.nodes[x]['op'] == 'var']
+            q = low.all()
+            for v in 'ab':
+                ids = [varid(rd, '%s%d' % (v, i)) for i in range(4)]
+                if all(i is not None and i in low.done for i in ids):
+                    q += '\n(assert (bvult (concat %s) %s))' % (' '.join('n%d' % i for i in reversed(ids)), bvconst256(m))
+            q += '\n(assert (not (= (concat %s) (concat %s))))' % (' '.join('n%d' % x for x in reversed(od['out']['f'])), ' '.join('n%d' % x for x in reversed(od['ref']['f'])))
+            mm, slv = smt.get_model(q, names, timeout=60 if ck.tier == 'quick' else 900)
+            ck.record('K.%s.%s.diff' % (pkg, kind), 'differential witness search against the reference kernel (QF_BV): %s' % ('model found by ' + str(slv) if mm else 'no model within the time limit'),
+                      'sat' if mm else 'unknown', slv, 0.0, 'sat' if mm else 'unknown', sample=q[-600:])
+            if mm:
+                vals = {rd.nodes[int(k_[1:])]['n']: v_ for k_, v_ in mm.items()}
+                a = unlimbs([vals.get('a%d' % i, 0) for i in range(4)])
+                b = unlimbs([vals.get('b%d' % i, 0) for i in range(4)])
+                path = ck.save_replay({'property': ck.pid, 'pkg': pkg, 'cases': [{'kind': 'kernel', 'op': kind, 'a': '%064x' % a, 'b': '%064x' % b}]})
+                ok, out = core.go_test(path, pkg=pkg)
+                if not ok and 'MISMATCH' in out:
+                    ck.violation('kernel:%s.%s' % (pkg, kind), 'internal/%s kernel %s differs from its proved reference: %s' % (pkg, kind, [l.strip() for l in out.splitlines() if 'MISMATCH' in l][:1]), path)
+                    return
+    except (core.EngineError, ValueError, KeyError) as e:
+        ck.notes.append('differential search for %s.%s not possible: %s' % (pkg, kind, str(e)[:200]))
     ck.inconclusive.append('kernel %s.%s: contract not proved and no concrete witness found' % (pkg, kind))
 
 
